@@ -36,6 +36,14 @@ func init() {
 		p.assume("honest-field-encoding-nonempty", p.ctx.Not(p.ctx.Eq(ab.t, p.ctx.IntC64(0))))
 		return true
 	}
+	// AppendBigIntToBytesSlice(commonBytes, appended) on an abstract prefix (a symbolic ssid)
+	summaries[common+"AppendBigIntToBytesSlice"] = func(fr *frame, a []value) value {
+		if !isAbsBytes(a[0]) {
+			return declined{}
+		}
+		p := fr.i.p
+		return catAbs(a[0], p.bigBytes(fr, p.bigAt(fr, a[1])))
+	}
 	summaries[common+"SHA512_256iOne"] = func(fr *frame, a []value) value {
 		if a[0].(*value) == nil {
 			return (*value)(nil)
@@ -103,6 +111,32 @@ func (p *pathRun) hashInts(fr *frame, fam string, tag value, hasTag bool, ins []
 			sym = true
 			name += "_abstag"
 			args = append(args, tg.t)
+		case *absCat:
+			sym = true
+			name += "_cattag"
+			for _, part := range tg.parts {
+				switch pt := part.(type) {
+				case *absBytes:
+					name += "A"
+					args = append(args, pt.t)
+				case []value:
+					if bs, ok := concBytes(pt); ok {
+						name += fmt.Sprintf("C%x", bs)
+					} else {
+						name += fmt.Sprintf("B%d", len(pt))
+						var acc *smt.Term
+						for _, e := range pt {
+							t := p.bvOf(e)
+							if acc == nil {
+								acc = t
+							} else {
+								acc = c.Concat(acc, t)
+							}
+						}
+						args = append(args, c.BV2Nat(acc))
+					}
+				}
+			}
 		default:
 			panic(fmt.Sprintf("hash tag of %T", tag))
 		}
